@@ -234,8 +234,8 @@ func (l *Lexer) NextToken() token.Token {
 			l.readChar()
 			tok.Literal = "0x" + l.readHexNumber()
 			tok.EndLineNumber = l.lineNumber
-			tok.EndCharIndex = l.charNumber - 1
-			tok.EndUtf8CharIndex = l.utf8CharNumber - 1
+			tok.EndCharIndex = l.prevCharNumber
+			tok.EndUtf8CharIndex = l.prevUtf8CharNumber
 			return tok
 		}
 
@@ -245,8 +245,8 @@ func (l *Lexer) NextToken() token.Token {
 		tok.LineNumber = l.lineNumber
 		tok.Literal = l.readNumber()
 		tok.EndLineNumber = l.lineNumber
-		tok.EndCharIndex = l.charNumber - 1
-		tok.EndUtf8CharIndex = l.utf8CharNumber - 1
+		tok.EndCharIndex = l.prevCharNumber
+		tok.EndUtf8CharIndex = l.prevUtf8CharNumber
 		return tok
 	case 0:
 		tok.StartCharIndex = l.charNumber
